@@ -5,6 +5,7 @@ import (
 	"context"
 	"fmt"
 	"runtime"
+	"testing/iotest"
 	"time"
 	"unsafe"
 
@@ -64,7 +65,15 @@ func runChannelBatches(c *core.Ctx) {
 				continue
 			}
 			used = append(used, s)
-			rig.Ch.Write1(mon.Payload(1, k, s))
+			switch rng.Intn(5) {
+			case 0:
+				// ReadFrom hands its pooled chunk over without a copy - also when the reader returns its last data with io.EOF
+				rig.Ch.ReadFrom(iotest.DataErrReader(bytes.NewReader(mon.Payload(1, k, s))))
+			case 1:
+				rig.Ch.ReadFrom(bytes.NewReader(mon.Payload(1, k, s)))
+			default:
+				rig.Ch.Write1(mon.Payload(1, k, s))
+			}
 		}
 		if mode == mon.NonBlock {
 			// refused calls through every entry point that takes or hands over a pooled buffer
